@@ -383,9 +383,10 @@ func c01(c *ctx) {
 		}, minTarget: 2})
 	c.whoCalls("R6", addProposal, allow{handleMessage: "after CheckProposerMessage"})
 	// SafeNode's own shape: nil only via SAFETY (same hashes as the lock) or LIVENESS (higher round), after the justification matches the proposal
+	r.Rule("R7", "MPT", "SAFE-NODE releases a lock only for the locked proposal itself or for a justification that is newer than the lock in (root height, round) order: SafeNode returns nil only after the justification matched the proposal and either both hashes equal the lock's, or the justification's RootHeight is greater, or the RootHeights are equal and its Round is greater (Round restarts at 0 on a NEW_COMMITTEE reset while locks are kept, so Round alone does not order certificates)", 1)
 	bytesEqual := lookupStd(c.p, "bytes", "Equal")
 	if bytesEqual != nil {
-		c.mpt(mptSpec{rule: "R6", fn: safeNode, events: evSet{},
+		c.mpt(mptSpec{rule: "R7", fn: safeNode, events: evSet{},
 			extraEv: func(in ssa.Instruction) string {
 				cc := callCommon(in)
 				if cc == nil || !callIs(cc, bytesEqual) {
@@ -404,10 +405,15 @@ func c01(c *ctx) {
 				}
 				return ""
 			},
-			atom:   cmpAtoms(c.p, cmpSpec{"higherRound", token.GTR, pathIs("$1.HighQc.Header.Round"), pathIs("$0.HighQC.Header.Round")}),
+			atom: cmpAtoms(c.p,
+				cmpSpec{"higherRound", token.GTR, pathIs("$1.HighQc.Header.Round"), pathIs("$0.HighQC.Header.Round")},
+				cmpSpec{"newerRoot", token.GTR, pathIs("$1.HighQc.Header.RootHeight"), pathIs("$0.HighQC.Header.RootHeight")},
+				cmpSpec{"sameRoot", token.EQL, pathIs("$1.HighQc.Header.RootHeight"), pathIs("$0.HighQC.Header.RootHeight")}),
 			target: tgtOkReturn("ok-return"),
 			reqs: func(string) []string {
-				return []string{"justifiesBlock#0=T", "justifiesResults#0=T", "sameBlockAsLock#0=T|@higherRound=T", "sameResultsAsLock#0=T|@higherRound=T"}
+				return []string{"justifiesBlock#0=T", "justifiesResults#0=T",
+					"sameBlockAsLock#0=T|@newerRoot=T|@sameRoot=T", "sameBlockAsLock#0=T|@newerRoot=T|@higherRound=T",
+					"sameResultsAsLock#0=T|@newerRoot=T|@sameRoot=T", "sameResultsAsLock#0=T|@newerRoot=T|@higherRound=T"}
 			}, minTarget: 2})
 	}
 }
